@@ -167,13 +167,28 @@ func checkFramework(c FCase) (out evid.Outcome) {
 			}
 			body := func(ctx flamego.Context) error {
 				s.check(k, "ctx", ctx, nil, nil)
-				s.wantResults = append(s.wantResults, describeResults([]reflect.Value{reflect.ValueOf(&e).Elem()}))
+				if d := describeResults([]reflect.Value{reflect.ValueOf(&e).Elem()}); d != "()" {
+					s.wantResults = append(s.wantResults, d)
+				}
 				return e
 			}
 			if h.Kind == "ctxerr" {
 				hs = append(hs, body)
 			} else {
 				hs = append(hs, namedCtxErr(body))
+			}
+		case "teapot", "teapot-named":
+			// func() (int, string): the one built-in wrapped shape with results,
+			// as it is and behind a named func type
+			body := func() (int, string) {
+				s.ran = append(s.ran, k)
+				s.wantResults = append(s.wantResults, describeResults([]reflect.Value{reflect.ValueOf(1000 + k), reflect.ValueOf(fmt.Sprintf("T%d", k))}))
+				return 1000 + k, fmt.Sprintf("T%d", k)
+			}
+			if h.Kind == "teapot" {
+				hs = append(hs, body)
+			} else {
+				hs = append(hs, namedTeapot(body))
 			}
 		case "typed":
 			inT := []reflect.Type{tContext}
@@ -204,7 +219,9 @@ func checkFramework(c FCase) (out evid.Outcome) {
 	// results are collected by a ReturnHandler of our own (which writes nothing,
 	// so the chain goes on)
 	f.Map(flamego.ReturnHandler(func(_ flamego.Context, vals []reflect.Value) {
-		s.gotResults = append(s.gotResults, describeResults(vals))
+		if d := describeResults(vals); d != "()" {
+			s.gotResults = append(s.gotResults, d)
+		}
 	}))
 	f.Get("/x", hs...)
 
@@ -326,7 +343,7 @@ func genFCase(t *rapid.T) FCase {
 	c.Outer = pick("outer", 3)
 	c.App = pick("app", 3)
 	have := append(append([]string{}, c.Outer...), c.App...)
-	kinds := []string{"ctx", "http", "handlerfunc", "refl", "typed", "typed", "ctx", "ctxerr", "ctxerr-named"}
+	kinds := []string{"ctx", "http", "handlerfunc", "refl", "typed", "typed", "ctx", "ctxerr", "ctxerr-named", "teapot", "teapot-named"}
 	for i, n := 0, rapid.IntRange(1, 6).Draw(t, "nh"); i < n; i++ {
 		h := FH{Kind: kinds[rapid.IntRange(0, len(kinds)-1).Draw(t, "kind")]}
 		if h.Kind == "typed" {
@@ -411,18 +428,20 @@ func stripQuotedSignatures(msg string) string {
 }
 
 type namedCtxErr func(flamego.Context) error
+type namedTeapot func() (int, string)
 
-// describeResults renders what a ReturnHandler can observe of the results.
+// describeResults renders what a ReturnHandler can observe of the results: the
+// dynamic values. A nil result (a nil error) and no result at all are the same
+// thing to it, and the static type a value arrives under is not compared.
 func describeResults(vals []reflect.Value) string {
 	var parts []string
 	for _, v := range vals {
 		switch {
 		case !v.IsValid():
 			parts = append(parts, "INVALID")
-		case v.Kind() == reflect.Interface && v.IsNil():
-			parts = append(parts, v.Type().String()+":nil")
+		case (v.Kind() == reflect.Interface || v.Kind() == reflect.Ptr) && v.IsNil():
 		default:
-			parts = append(parts, fmt.Sprintf("%s:%v", v.Type(), v.Interface()))
+			parts = append(parts, fmt.Sprintf("%T:%v", v.Interface(), v.Interface()))
 		}
 	}
 	return "(" + strings.Join(parts, ", ") + ")"
